@@ -26,6 +26,11 @@ type c06Case struct {
 	Comp   bool     `json:"comp"`
 	Multi  bool     `json:"multi"`
 	Bound  []string `json:"bound,omitempty"` // invariants: commands without a default binding, bound to C-x C-z a, b, ...
+	// invariants: an earlier call on the same Shell (its waits are judged too), ended from whatever
+	// mode its script left it in by RET or by accept-and-hold (bound to C-x C-z H for the case):
+	// the mode and a held line carry over to the judged call
+	Prior     []sess.Step `json:"prior,omitempty"`
+	PriorHold bool        `json:"prior_hold,omitempty"`
 }
 
 // commands documented as pure movements or copies, by name
@@ -79,6 +84,14 @@ func c06Gen(r *rand.Rand, tier string, idx int) any {
 				at := r.Intn(len(c.Plan) + 1)
 				c.Plan = append(c.Plan[:at], append([]sess.Step{st}, c.Plan[at:]...)...)
 			}
+		}
+		if r.Intn(4) == 0 {
+			c.Prior = limitDigits(genScript(r, c.Mode == "vi", 1+r.Intn(8)), 4)
+			c.Prior = append(c.Prior, sess.Step{W: pick(r, []string{"held text", "ab", "x", "two words"}), Tag: "text"})
+			if c.Mode == "vi" && r.Intn(2) == 0 {
+				c.Prior = append(c.Prior, sess.Step{W: "\x1b", Tag: "esc"})
+			}
+			c.PriorHold = r.Intn(2) == 0
 		}
 		if c.Mode == "vi" && len(c.Hist) > 0 && r.Intn(3) == 0 {
 			// history searches from command mode whose text is a whole entry (the cursor is put
@@ -271,6 +284,11 @@ func c06Run(env *fw.Env, raw json.RawMessage) fw.Outcome {
 				s.Sh.Config.Bind(km, c01Probe+string(rune('a'+i)), name, false)
 			}
 		}
+		if c.PriorHold {
+			for _, km := range []string{"emacs", "vi-insert", "vi-command"} {
+				s.Sh.Config.Bind(km, c01Probe+"H", "accept-and-hold", false)
+			}
+		}
 		if c.Kind == "movement" {
 			inner := s.Sh.Keymap.Commands()[c.Cmd]
 			s.Sh.Keymap.Register(map[string]func(){"verif-ran": func() {}})
@@ -280,8 +298,26 @@ func c06Run(env *fw.Env, raw json.RawMessage) fw.Outcome {
 	}
 	s := sess.New(env.T, env.Scratch, cfg)
 	defer s.Close()
-	res := s.Call(c.Plan, retExit)
 	ctx := fmt.Sprintf("kind=%s mode=%s cmd=%s numarg=%q argkey=%q motion=%q bound-for-the-case=%v", c.Kind, c.Mode, c.Cmd, c.NumArg, c.ArgKey, c.Motion, c.Bound)
+	if len(c.Prior) > 0 {
+		ex := retExit
+		if c.PriorHold {
+			ex = steps(c01Probe + "H")
+		}
+		pres := s.Call(c.Prior, ex)
+		pctx := ctx + fmt.Sprintf(" (earlier call on the same shell, ended by accept-and-hold=%v) script=%s", c.PriorHold, qsteps(c.Prior))
+		for i := range pres.Waits {
+			o.O.Events++
+			c06Invariants(&o, &pres.Waits[i], pctx)
+		}
+		if !stdFailures(&o, pres, pctx) || !pres.Returned {
+			o.O.Sample = map[string]any{"ctx": pctx}
+			return o.O
+		}
+		o.Add("judged_calls_after_an_earlier_call_on_the_same_shell", 1)
+		ctx += fmt.Sprintf(" after-an-earlier-call(accept-and-hold=%v, returned %q)", c.PriorHold, clampStr(pres.Line, 40))
+	}
+	res := s.Call(c.Plan, retExit)
 	for i := range res.Waits {
 		o.O.Events++
 		c06Invariants(&o, &res.Waits[i], ctx)
